@@ -47,10 +47,11 @@ func emitPipelineCases(c *Ctx, progs []*Prog, checks []pipeCheck, shard int, non
 	tagCount := map[string]int{}
 	sizes := map[string]int{}
 	var files []string
+	caseBase := len(o.Plan.Cases) // cases other parts of the check registered before
 	for s := 0; s*shard < len(progs); s++ {
-		base := s * shard
+		base := caseBase + s*shard
 		var rows, e2e []string
-		for j := base; j < base+shard && j < len(progs); j++ {
+		for j := s * shard; j < s*shard+shard && j < len(progs); j++ {
 			p := progs[j]
 			ob := runStaged(p)
 			rows = append(rows, "("+p.Coq()+",\n   "+ob.Coq()+")")
